@@ -31,13 +31,13 @@ static inline int32_t MakeRelative(int32_t Value, int32_t Reference, int32_t Max
 	return Reference + BestSignedDifference(Value, Reference, Max);
 }
 
-static struct utcp_channel* utcp_get_channel(struct utcp_connection* fd, struct utcp_bunch* utcp_bunch)
+static struct utcp_channel* utcp_get_channel(struct utcp_connection* fd, struct utcp_bunch* utcp_bunch, bool bIncoming)
 {
 	if (utcp_bunch->bClose && utcp_bunch->ChIndex == 0)
 	{
 		utcp_mark_close(fd, ControlChannelClose);
 	}
-	return utcp_channels_get_channel(&fd->channels, utcp_bunch);
+	return utcp_channels_get_channel(&fd->channels, utcp_bunch, bIncoming);
 }
 
 // UChannel::ReceivedNextBunch
@@ -52,7 +52,7 @@ static bool ReceivedNextBunch(struct utcp_connection* fd, struct utcp_bunch_node
 	// Note this bunch's retirement.
 
 	struct utcp_bunch* utcp_bunch = &utcp_bunch_node->utcp_bunch;
-	struct utcp_channel* utcp_channel = utcp_get_channel(fd, utcp_bunch);
+	struct utcp_channel* utcp_channel = utcp_get_channel(fd, utcp_bunch, true);
 	assert(utcp_channel);
 
 	if (utcp_bunch->bReliable)
@@ -164,7 +164,7 @@ static void ReceivedRawBunch(struct utcp_connection* fd, struct bitbuf* bitbuf, 
 			break;
 		}
 
-		utcp_channel = utcp_get_channel(fd, utcp_bunch);
+		utcp_channel = utcp_get_channel(fd, utcp_bunch, true);
 		if (!utcp_channel)
 		{
 			break;
@@ -477,7 +477,7 @@ static int32_t WriteBitsToSendBufferInternal(struct utcp_connection* fd, const u
 // UNetConnection::SendRawBunch
 int32_t SendRawBunch(struct utcp_connection* fd, struct utcp_bunch* bunch)
 {
-	struct utcp_channel* utcp_channel = utcp_get_channel(fd, bunch);
+	struct utcp_channel* utcp_channel = utcp_get_channel(fd, bunch, false);
 	if (!utcp_channel)
 	{
 		return -2;
